@@ -38,6 +38,21 @@ class SetVal(SymVal):
         it.assume(z3.IsMember(m, self.t))
         it.assume(z3.ForAll([x], z3.Implies(z3.IsMember(x, self.t), (m <= x) if is_min else (x <= m))))
         return self._wrap(m)
+    def sym_minmax_key(self, it, is_min, default, keyf):
+        "max/min by a key: some element whose key bounds every element's key (CPython returns the first such; any is allowed here)"
+        import ast
+        if not it.fork(self.t != z3.EmptySet(z3.IntSort())):
+            if default is not NotImplemented: return default
+            raise PyExc(ValueError, ('max() arg is an empty sequence',))
+        m = it.fresh_int('min' if is_min else 'max')
+        x = z3.Int('x!q')
+        it.assume(z3.IsMember(m, self.t))
+        if self.elem == 'const': it.assume(m >= 0)
+        km, kx = keyf(self._wrap(m)), keyf(self._wrap(x))
+        c = it.compare(ast.LtE, km, kx) if is_min else it.compare(ast.LtE, kx, km)
+        c = z3.BoolVal(c) if isinstance(c, bool) else c
+        it.assume(z3.ForAll([x], z3.Implies(z3.And(z3.IsMember(x, self.t), x >= 0), c)))
+        return self._wrap(m)
     def sym_getattr(self, it, name):
         if name == 'update' and not self.frozen:
             def update(it, other):
@@ -60,6 +75,11 @@ class ConstKey(SymVal):
         if name == 'next':
             # contract of CoordsItem.next for Constant (proved: C06.next.*)
             return Contract(lambda it: ConstKey(self.k + 1), 'Constant.next')
+        # coordinates of the constant at position k of the order (subscript-major: key = 4*subscript + index, C06.order)
+        if name == 'index': return self.k % 4
+        if name == 'subscript': return self.k / 4
+        if name == 'spec': return (self.k % 4, self.k / 4)
+        if name == 'sort_tuple': raise Outside('Constant.sort_tuple')
         raise Outside(f'Constant.{name}')
     def sym_compare(self, it, op, other, reflected):
         if not isinstance(other, ConstKey): raise Outside('compare constant with non-constant')
